@@ -256,6 +256,9 @@ type FakeHost struct {
 	Mode  int    // 0 ack, 1 error, 2 silent (until the context ends)
 	Calls []HostCall
 	Conn  string // connection label (for registry checks)
+	// OnCall, when set, runs as a call arrives (e.g. the requester on whose behalf the pool calls
+	// hangs up just then)
+	OnCall func()
 }
 
 const (
@@ -280,6 +283,9 @@ func (h *FakeHost) Call(ctx context.Context, result interface{}, method string, 
 		h.W.Step++
 		h.Calls[idx].Done, h.Calls[idx].Err, h.Calls[idx].Step = true, isErr, h.W.Step
 		hostLogMu.Unlock()
+	}
+	if f := h.OnCall; f != nil {
+		f()
 	}
 	switch h.Mode {
 	case HostErr:
